@@ -24,7 +24,10 @@ from pathlib import Path
 
 VERIF = Path(__file__).resolve().parent.parent
 OUT = VERIF / "out"
-EVIDENCE = VERIF / "evidence"
+# runs against a scratch copy of the repository (sensitivity tests) must not
+# overwrite the evidence of the real tree
+EVIDENCE = VERIF / "evidence" if not os.environ.get("VF_REPO") \
+    else OUT / "evidence_scratch"
 REGRESSIONS = VERIF / "regressions"
 KNOWN_FILE = VERIF / "known_findings.json"
 
@@ -521,7 +524,7 @@ def run_property(module, tier, base_seed, build_info, nproc=None,
         "wall_s": round(time.time() - t0, 2),
         "violations": nviol,
     }
-    EVIDENCE.mkdir(exist_ok=True)
+    EVIDENCE.mkdir(parents=True, exist_ok=True)
     (EVIDENCE / f"{prop}.json").write_text(
         json.dumps(ev, indent=1, allow_nan=False, default=_jsonable))
 
